@@ -253,12 +253,14 @@ package cache
 //@ func (*cache).GetPendingContainers safety
 //@   requires cch != nil
 //@   modifies nothing
-//@   ensures[C05] forall j int :: 0 <= j && j < len(result) ==> exists id string :: id in cch.pending && id in cch.Containers && result[j] == cch.Containers[id]
+//@   ensures[C05,C14] forall j int :: 0 <= j && j < len(result) ==> exists id string :: id in cch.pending && id in cch.Containers && result[j] == cch.Containers[id]
+//@   # C14: the handlers call methods on every element (a pending id whose container is gone is skipped, not returned as nil)
+//@   ensures[C14] ctrsOK(cch) ==> forall j int :: 0 <= j && j < len(result) ==> result[j] != nil
 //@   ensures[C05] forall id string :: id in cch.pending && id in cch.Containers ==> exists j int :: 0 <= j && j < len(result) && result[j] == cch.Containers[id]
 //@   ensures[C05] keyed(cch) ==> forall i int, j int :: 0 <= i && i < j && j < len(result) ==> result[i] != result[j]
 //@ loop 0 in (*cache).GetPendingContainers at "range cch.pending"
-//@   invariant[C05] newobj(pending)
-//@   invariant[C05] forall j int :: 0 <= j && j < len(pending) ==> exists id string :: seen(id) && id in cch.pending && id in cch.Containers && pending[j] == cch.Containers[id]
+//@   invariant[C05,C14] newobj(pending)
+//@   invariant[C05,C14] forall j int :: 0 <= j && j < len(pending) ==> exists id string :: seen(id) && id in cch.pending && id in cch.Containers && pending[j] == cch.Containers[id]
 //@   invariant[C05] forall id string :: seen(id) && id in cch.Containers ==> exists j int :: 0 <= j && j < len(pending) && pending[j] == cch.Containers[id]
 //@   invariant[C05] forall id string :: seen(id) ==> id in cch.pending
 //@   invariant[C05] keyed(cch) ==> forall i int, j int :: 0 <= i && i < j && j < len(pending) ==> pending[i] != pending[j]
